@@ -364,7 +364,7 @@ class Verdict:
         return 1 if self.violations else 0
 
 
-def validate_trace(wd, sd, module, trace_file, timeout=900):
+def validate_trace(wd, sd, module, trace_file, timeout=900, invariants=()):
     """TLC trace validation: returns (accepted, lines, detail).  The trace module must define Spec,
     a constant TraceFile and a postcondition Accepted (high-water mark of consumed lines)."""
     name = "TV_" + module
@@ -374,6 +374,8 @@ def validate_trace(wd, sd, module, trace_file, timeout=900):
                  % (name, module, trace_file))
     with open(os.path.join(sd, name + ".cfg"), "w") as fh:
         fh.write("SPECIFICATION Spec\nCONSTANTS TraceFile <- MC_TraceFile\nPOSTCONDITION MC_Accepted\nCHECK_DEADLOCK FALSE\n")
+        if invariants:
+            fh.write("INVARIANTS " + " ".join(invariants) + "\n")
     out = os.path.join(wd, name + ".out")
     env = dict(os.environ, JAVA_TOOL_OPTIONS="-Dtlc2.tool.queue.IStateQueue=StateDeque")
     cmd = ["java", "-Xmx6g", "-Xss512m", "-XX:+UseParallelGC", "-cp", "/opt/veriftools/tla/tla2tools.jar:" + community_cp(),
@@ -388,6 +390,11 @@ def validate_trace(wd, sd, module, trace_file, timeout=900):
     txt = open(out, errors="replace").read()
     nlines = sum(1 for _ in open(trace_file))
     m = re.search(r'<<"REJECTED_AT", (\d+)>>', txt)
+    if "is violated" in txt and not m:
+        mi = re.search(r"Invariant (\w+) is violated", txt)
+        log(f"[trace] {module}: invariant {mi.group(1) if mi else '?'} violated on the trace")
+        return False, nlines, -1, {"name": name, "generated": 0, "distinct": 0, "wall_s": round(time.time() - t0, 1),
+                                   "invariant": mi.group(1) if mi else "?"}
     st = {"name": name, "generated": 0, "distinct": 0, "wall_s": round(time.time() - t0, 1)}
     mm = re.search(r"(\d[\d,]*) states generated, (\d[\d,]*) distinct states found", txt)
     if mm:
